@@ -201,6 +201,16 @@ def splice_loops(unit_path, spec, out_path):
         raise SpliceError("internal: layout changed while stripping comments")
     inserts = []
     nclauses = 0
+    # "_rename_def": {"f": "f__real"}: rename ONLY the name token in the definition of f, so that calls to f in
+    # the unit bind to a function of that name supplied by the harness (the unit's prototype of f is kept).
+    for fn, newname in spec.get("_rename_def", {}).items():
+        s0, e0 = find_function_body(clean, fn)
+        hits = [m for m in re.finditer(r"(?<![A-Za-z0-9_])" + re.escape(fn) + r"(?![A-Za-z0-9_])", clean[:s0])]
+        if not hits:
+            raise SpliceError("function %s: name token of definition not found" % fn)
+        m = hits[-1]
+        inserts.append((m.start(), ("__RENAME__", len(fn), newname)))
+        nclauses += 1
     for fn, loops in spec.items():
         if fn.startswith("_"):
             continue
@@ -222,6 +232,10 @@ def splice_loops(unit_path, spec, out_path):
     last = 0
     for off, ins in inserts:
         out.append(text[last:off])
+        if isinstance(ins, tuple):
+            out.append(ins[2])
+            last = off + ins[1]
+            continue
         out.append(ins)
         last = off
     out.append(text[last:])
@@ -308,22 +322,42 @@ class Run:
             try:
                 if splice:
                     for unit, specfile in splice.items():
-                        spec = json.load(open(os.path.join(VERIF, "contracts/loops", specfile)))
+                        spec = specfile if isinstance(specfile, dict) else json.load(open(os.path.join(VERIF, "contracts/loops", specfile)))
                         ent["spliced"] += splice_loops(os.path.join(SRC, unit), spec, os.path.join(d, unit))
                 src = os.path.join(self.hdir, job["src"])
-                cmd = (["goto-cc", "-D" + GUARD] + list(defs) + self.include_flags(d if splice else None)
-                       + [src] + [os.path.join(SRC, x) for x in job.get("link", [])]
-                       + ["-c", "-o", os.path.join(d, "base.o")])
+                cmd = (["goto-cc", "-D" + GUARD, "-D__NO_CTYPE"] + list(defs) + self.include_flags(d if splice else None)
+                       + [src, "-c", "-o", os.path.join(d, "base.o")])
                 rc, so, se, w = sh(cmd, timeout=300)
                 ent["cmd"] = " ".join(cmd)
+                ent["objs"] = [os.path.join(d, "base.o")]
                 if rc != 0 or not os.path.exists(os.path.join(d, "base.o")):
                     ent["err"] = "goto-cc failed (rc=%d): %s" % (rc, (se + so)[-1500:])
+                for x in job.get("link", []):
+                    o = self.link_obj(x)
+                    if o is None:
+                        ent["err"] = "goto-cc failed on linked real unit %s" % x
+                    else:
+                        ent["objs"].append(o)
             except SpliceError as e:
                 ent["err"] = "splice: %s" % e
             except Exception as e:  # noqa
                 ent["err"] = "build: %r" % e
             ent["done"] = True
             return ent
+
+    def link_obj(self, unit):
+        """goto-cc -c of a real unit that is linked (not textually included); shared by all builds of the run.
+        unit is "file.c" or "file.c:-Dsym=newname[:-D...]" (renames a symbol the harness stubs, e.g. bug)."""
+        with self.build_lock:
+            cache = self.__dict__.setdefault("_link_objs", {})
+            if unit in cache:
+                return cache[unit]
+            parts = unit.split(":")
+            fn, extra = parts[0], parts[1:]
+            o = os.path.join(self.scratch, "link_" + re.sub(r"[^A-Za-z0-9_.]", "_", unit) + ".o")
+            rc, so, se, w = sh(["goto-cc", "-D" + GUARD, "-D__NO_CTYPE"] + extra + self.include_flags() + [os.path.join(SRC, fn), "-c", "-o", o], timeout=300)
+            cache[unit] = o if rc == 0 and os.path.exists(o) else None
+            return cache[unit]
 
     # ---- one job ---------------------------------------------------------
     def run_job(self, job):
@@ -342,7 +376,7 @@ class Run:
         os.makedirs(jd, exist_ok=True)
         entry = job["entry"]
         base = os.path.join(jd, "base.gb")
-        cmd = ["goto-cc", "--function", entry, os.path.join(d, "base.o"), "-o", base]
+        cmd = ["goto-cc", "--function", entry] + ent["objs"] + ["-o", base]
         rc, so, se, w = sh(cmd, timeout=300)
         if rc != 0 or not os.path.exists(base):
             res["reason"] = "goto-cc link failed (rc=%d): %s" % (rc, (so + se)[-800:])
@@ -394,6 +428,12 @@ class Run:
                 props = e["result"]
         alltext = "\n".join(msgs)
         res["nobody"] = sorted(set(re.findall(r"no body for (?:callee|function) (\S+)", alltext)))
+        if job.get("strict_nobody"):
+            bad = [f for f in res["nobody"] if f not in job.get("nobody_ok", [])]
+            if bad:
+                res["reason"] = "callee(s) without body reached (would be nondet): %s" % ",".join(bad[:6])
+                res["wall_s"] = time.time() - t0
+                return res
         if props is None:
             res["reason"] = "cbmc produced no result (rc=%d): %s" % (rc, alltext[-800:])
             res["wall_s"] = time.time() - t0
@@ -407,10 +447,15 @@ class Run:
         nobl = 0
         failed = []
         unwind_fail = []
+        unknown = []
         for p in props:
             desc = p.get("description", "")
             pidp = p.get("property", "")
             st = p.get("status")
+            if desc.startswith("VCOVER"):
+                # informational reachability probe: FAILURE = the guarded branch is reachable
+                res.setdefault("covers", []).append({"desc": desc[7:120], "reached": st == "FAILURE"})
+                continue
             if desc.startswith("VREACH"):
                 has_reach = True
                 if st == "FAILURE":
@@ -426,8 +471,12 @@ class Run:
                 else:
                     failed.append(p)
             elif st != "SUCCESS":
-                res["reason"] = "property %s has status %s" % (pidp, st)
+                unknown.append(pidp)
         res["nprops"] = nobl
+        # CBMC reports the sibling checks of a FAILED check (and everything dominated by it) as UNKNOWN:
+        # that is only "undecided" when nothing failed.
+        if unknown and not failed and not unwind_fail:
+            res["reason"] = "property %s has status UNKNOWN" % unknown[0]
         if job.get("loops"):
             nli = sum(1 for p in props if "loop_invariant" in p.get("property", "") or "loop invariant" in p.get("description", ""))
             if nli == 0:
@@ -516,13 +565,12 @@ class Run:
         libs = self.native_libs()
         cmd = (["gcc", "-w", "-g", "-O0", "-fsanitize=address,undefined", "-fno-sanitize-recover=undefined",
                 "-DNATIVE_REPLAY", "-DENTRY=" + job["entry"], "-include", cex_h]
-               + list(job.get("defs", [])) + self.include_flags() + [src]
-               + [os.path.join(SRC, x) for x in job.get("link", [])]
+               + list(job.get("defs", [])) + self.include_flags(self.build(job)["dir"] if job.get("splice") else None) + [src]
                + (["-Wl,--allow-multiple-definition"] + libs if libs else []) + ["-lm", "-o", exe])
         rc, so, se, w = sh(cmd, timeout=300)
         if rc != 0:
             return None, "native replay did not compile: " + se[-600:]
-        rc, so, se, w = sh([exe], timeout=60)
+        rc, so, se, w = sh(["env", "ASAN_OPTIONS=detect_leaks=0", exe], timeout=60)
         out = (so + se)[-3000:]
         with open(os.path.join(outdir, "replay_output.txt"), "w") as fh:
             fh.write("$ " + " ".join(cmd) + "\n" + out)
@@ -543,6 +591,7 @@ class Run:
     # ---- whole property -----------------------------------------------------
     def main(self):
         t0 = time.time()
+        os.environ["VERIF_GEN_DIR"] = os.path.join(self.scratch, "gen")
         spec = importlib.util.spec_from_file_location("jobs_" + self.pid, os.path.join(self.hdir, "jobs.py"))
         mod = importlib.util.module_from_spec(spec)
         spec.loader.exec_module(mod)
@@ -649,6 +698,7 @@ class Run:
                 "functions_without_body_treated_as_nondet_return_no_side_effect": nobody,
                 "undecided_jobs": [{"job": r["job"], "reason": r["reason"][:300]} for r in undecided],
                 "known_findings_seen": [k["key"] for k, _ in known_hits],
+                "covers": [{"job": r["job"], **c} for r in real for c in r.get("covers", [])][:400],
                 "samples": samples,
                 "exhaustive": False,
             },
